@@ -209,8 +209,9 @@ _dispatch_time_nanoseconds_since_epoch(dispatch_time_t when)
 	if (when == DISPATCH_TIME_FOREVER) {
 		return DISPATCH_TIME_FOREVER;
 	}
-	if ((int64_t)when < 0) {
-		// time in nanoseconds since the POSIX epoch already
+	if ((int64_t)when < 0 && (when & DISPATCH_WALLTIME_MASK)) {
+		// wall time: in nanoseconds since the POSIX epoch already
+		// (a monotonic time also has bit 63 set, but not bit 62)
 		return (uint64_t)-(int64_t)when;
 	}
 
